@@ -553,7 +553,7 @@ func checkC20(c *core.Ctx) {
 	res.Report(c, "SchedMon")
 	c.Add("traces_validated_against_impl", int64(res.Validated))
 	c.Set("distinct_nontrivial", len(traces))
-	c.Set("rule", "TLC-simulated behaviours of Sched (at most two API calls per clock value, no re-use of a reference whose job is queued), de-duplicated; each is non-trivial (at least one scheduled job)")
+	c.Set("rule", "TLC-simulated behaviours of Sched (at most two API calls per clock value, no re-use of a reference whose job is queued except on top of a live loop job, where the call is a no-op), de-duplicated; each is non-trivial (at least one scheduled job)")
 	for i := 0; i < len(traces) && i < 2; i++ {
 		c.Sample(map[string]any{"behaviour": traces[i].Scenario, "trace_head": head(traces[i].Events, 12)})
 	}
